@@ -6,6 +6,7 @@ Theorems about the model `Filter.updateFilter` (Model/Filter.lean), for EVERY da
 (Spec/Filter.lean) are the property's wording.
 -/
 import Paroxy.Proofs.Filter
+import Paroxy.Proofs.Imported
 namespace Paroxy.Props.C04
 open Paroxy Paroxy.Filter
 
@@ -92,5 +93,31 @@ theorem C04_parse :
     parseOperation (codesOf "hide") = some (.hide, false) ∧
     parseOperation (codesOf "exclude all all") = some (.exclude, false) ∧
     parseOperation (codesOf "delete") = none := by decide +kernel
+
+/-- The hypothesis `Ctx.WF` of the theorems above is not an extra assumption on the filter: on a
+tag database that is well-formed as stored (`DB.WF`, what `make_db` writes), `add_imported_taxa`
+succeeds (no `KeyError`), keeps the programs and their order, and the filter context it builds
+satisfies `Ctx.WF` — for every regex oracle. -/
+theorem C04_ctx_wf_of_db_wf (db : DB) (wf : db.WF) (orc : Oracle) :
+    ∃ progs, addImported db = some progs ∧ progs.map (·.1) = db.programs.map (·.1) ∧
+      Ctx.WF { orc := orc, programs := progs, taxa := db.taxa, exportations := db.exportations } :=
+  let ⟨progs, h1, h2, h3, _⟩ := addImported_spec db wf orc
+  ⟨progs, h1, h2, h3⟩
+
+-- Non-vacuity: `exampleDB` (Proofs/Imported.lean) has two programs, `b.py` importing `a.py`; it
+-- satisfies `DB.WF` (`exampleDB_wf`), `add_imported_taxa` copies `x` (not `meta/m`) under `b.py`,
+-- and the resulting context is well-formed.
+example : addImported exampleDB = some
+    [([97, 46, 112, 121], [([120], [(1, 1)]), ([109, 101, 116, 97, 47, 109], [(2, 2)])]),
+     ([98, 46, 112, 121], [([121], [(1, 3), (5, 5)]), ([120], [])])] := rfl
+example (orc : Oracle) : Ctx.WF {
+    orc := orc
+    programs := [([97, 46, 112, 121], [([120], [(1, 1)]), ([109, 101, 116, 97, 47, 109], [(2, 2)])]),
+                 ([98, 46, 112, 121], [([121], [(1, 3), (5, 5)]), ([120], [])])]
+    taxa := exampleDB.taxa
+    exportations := exampleDB.exportations } := by
+  obtain ⟨progs, h, _, wf⟩ := C04_ctx_wf_of_db_wf exampleDB exampleDB_wf orc
+  cases h
+  exact wf
 
 end Paroxy.Props.C04
